@@ -15,9 +15,10 @@ impl TryFrom<&[u8]> for RegisterRequest {
     type Error = TryFromSliceError;
 
     fn try_from(data: &[u8]) -> Result<Self, Self::Error> {
+        // Slices that are too short turn into a conversion error instead of a panic.
         Ok(Self {
-            challenge: data[..32].try_into()?,
-            application: data[32..].try_into()?,
+            challenge: data.get(..32).unwrap_or_default().try_into()?,
+            application: data.get(32..).unwrap_or_default().try_into()?,
         })
     }
 }
